@@ -62,6 +62,8 @@ ExprSeq == SetToSeq(Exprs)
 (* ---------------- B: type-changing statement sequences --------------- *)
 Pool == << "X = 1;", "X = \"s\";", "X = 2.5;", "X = tab(1, 1);", "X = tup(1, \"a\");", "X = null;", "X = X + 1;", "Y = X;", "X = Y;",
            "$S = $S + 1;", "$S = 2.5;", "$S = \"s\";", "$S = X;",
+           \* a type-safe variable used as the control variable of a loop is still type-safe afterwards
+           "for $S in 1 to 2 loop Y = $S; end loop;", "for $S in 1 to 2 loop for $S in 4 to 5 loop Y = $S; end loop; end loop;",
            "for X in 1 to 2 loop Y = X; end loop;", "for I in 1 to 2 loop I = \"s\"; end loop;", "for I in 1 to 2 loop X = I; X = \"t\"; end loop;",
            "forall X in T loop Y = X; end loop;", "forall E in T loop E = \"s\"; end loop;", "forall E in T loop E = E + 1; X = E; end loop;",
            "X = FO(X);", "X = FO(1);", "print typeof(X) typeof(Y);", "if typeof(X) == \"integer\" then Y = X + 1; else Y = \"n\"; end if;",
@@ -88,8 +90,19 @@ UTexts == {
   "TU = tab(2, tup(1, \"a\")); TU.at(0).set@1(\"s\");", "TU = tab(2, tup(1, \"a\")); R = TU.at(0); R.set@2(5); TU.put(1, R);",
   "TT = tab(2, tab(1, 1)); TT.at(0).put(0, \"s\");", "TT = tab(2, tab(1, 1)); TT.at(0).concat(tab(1, 1));", "TT = tab(2, tab(1, 1)); TT.at(1).concat(2.5);" }
 
+(* ---------------- V: a variable whose tuple structure changes (directly, through a typed null, through a table) --------------- *)
+\* compiled as one unit and statement at a time: the items are read with the structure the variable has then
+VTexts == {
+  "X = tup(\"s\", 1);\nX = tab(int(), tup(1.5, true));\nX.concat(tup(2.5, false));\nprint X.at(0)@1 / 2;\nprint not X.at(0)@2;",
+  "X = tup(1, \"a\");\nX = tab(0, tup(\"b\", 2.5));\nX.concat(tup(\"c\", 3.5));\nprint X.at(0)@2 + 1;\nprint X.at(0)@1 + \"s\";",
+  "X = tup(1, \"a\");\nX = tup(\"b\", 2.5, true);\nprint X@2 + 1;\nprint X@1 + \"s\";\nprint not X@3;",
+  "W = tab(2, tup(1, \"a\"));\nW = tab(2, tup(\"b\", 2.5));\nprint W.at(0)@2 + 1;\nprint W.at(1)@1 + \"s\";",
+  "X = tup(1, \"a\");\nX = null;\nX = tup(\"b\", 2.5);\nprint X@2 + 1;",
+  "X = tup(\"s\", 1);\nX = tup();\nX = tup(2.5, true);\nprint X@1 / 2;\nprint not X@2;",
+  "X = tup(\"s\", 1);\nX = 5;\nX = tup(2.5, true);\nprint X@1 / 2;",
+  "X = tab(1, tup(\"s\", 1));\nX = tab(int(), tup(1.5, true));\nX.concat(tup(2.5, false));\nprint X.at(0)@1 / 2;" }
 VARIABLE p
-Init == p \in {[kind |-> "E", c |-> c] : c \in 0..((Cardinality(Exprs) - 1) \div ChunkSize)} \cup {[kind |-> "B", h |-> h] : h \in BProgs}
+Init == p \in {[kind |-> "V", t |-> t] : t \in VTexts} \cup {[kind |-> "E", c |-> c] : c \in 0..((Cardinality(Exprs) - 1) \div ChunkSize)} \cup {[kind |-> "B", h |-> h] : h \in BProgs}
               \cup {[kind |-> "U", t |-> t] : t \in UTexts}
 Next == UNCHANGED p
 Scenario(q) ==
@@ -97,6 +110,14 @@ Scenario(q) ==
     [prop |-> "C02", key |-> "U",
      steps |-> << [op |-> "exec", ctx |-> 0, free |-> TRUE, text |-> q.t], [op |-> "dump", ctx |-> 0],
                   [op |-> "step", ctx |-> 1, free |-> TRUE, text |-> q.t], [op |-> "dump", ctx |-> 1] >>]
+  ELSE IF q.kind = "V" THEN
+    [prop |-> "C02", key |-> "V",
+     steps |-> << [op |-> "exec", ctx |-> 0, free |-> TRUE, text |-> BPrelude],
+                  [op |-> "exec", ctx |-> 0, free |-> TRUE, text |-> q.t],
+                  [op |-> "dump", ctx |-> 0],
+                  [op |-> "step", ctx |-> 1, free |-> TRUE, text |-> BPrelude],
+                  [op |-> "step", ctx |-> 1, same_as |-> 2, text |-> q.t],
+                  [op |-> "dump", ctx |-> 1, same_as |-> 3, after |-> 2, stepat |-> 5] >>]
   ELSE IF q.kind = "E" THEN
     LET lo == q.c * ChunkSize + 1   hi == IF lo + ChunkSize - 1 > Len(ExprSeq) THEN Len(ExprSeq) ELSE lo + ChunkSize - 1 IN
     [prop |-> "C02", key |-> "E",
